@@ -17,7 +17,7 @@ prop("C01", [
     S(REASM, "^TestC01Regress$", kind="plain"),
     S(REASM, "^TestC01$", q=20000, t=200000, shards=16),
 ], REASM_ASSUME, nontrivial_classes=["history-with-eviction-of-incomplete-event", "history-with-reused-sequence",
-                                     "history-with-Push-parsed-record", "history-with-EOE-completion"])
+                                     "history-with-Push-parsed-record", "history-with-EOE-completion", "history-with-reentrant-calls"])
 
 prop("C02", [
     S(REASM, "^TestC02Regress$", kind="plain"),
